@@ -81,3 +81,929 @@ Proof.
   - apply bytes_eqb_eq in E. subst k. rewrite bytes_eqb_refl in H1. discriminate.
   - rewrite (IH H2). reflexivity.
 Qed.
+
+(* ---------- component prefixes ---------- *)
+
+Lemma comp_prefix_spec p q : comp_prefix p q = true <-> exists r, q = p ++ r.
+Proof.
+  revert q. induction p as [|c p IH]; intros q; cbn [comp_prefix].
+  - split; [intros _; exists q; reflexivity | reflexivity].
+  - destruct q as [|d q].
+    + split; [discriminate | intros [r H]; discriminate].
+    + rewrite andb_true_iff, bytes_eqb_eq, IH. split.
+      * intros [-> [r ->]]. exists r. reflexivity.
+      * intros [r H]. inversion H. subst. split; [reflexivity | exists r; reflexivity].
+Qed.
+
+Lemma comp_prefix_refl p : comp_prefix p p = true.
+Proof. apply comp_prefix_spec. exists []. rewrite app_nil_r. reflexivity. Qed.
+
+Lemma comp_prefix_trans a b c : comp_prefix a b = true -> comp_prefix b c = true -> comp_prefix a c = true.
+Proof.
+  rewrite !comp_prefix_spec. intros [r1 ->] [r2 ->]. exists (r1 ++ r2). rewrite app_assoc. reflexivity.
+Qed.
+
+(* ---------- physical access ---------- *)
+
+Lemma get_app t a b : get t (a ++ b) = match get t a with Some t' => get t' b | None => None end.
+Proof.
+  revert t. induction a as [|c a IH]; intros t; cbn [app get]; [reflexivity|].
+  destruct t as [n|s|es]; try reflexivity. destruct (assoc c es) as [t'|]; [apply IH | reflexivity].
+Qed.
+
+Lemma get_snoc_inv t p c x :
+  get t (p ++ [c]) = Some x -> exists es, get t p = Some (Dir es) /\ assoc c es = Some x.
+Proof.
+  rewrite get_app. destruct (get t p) as [t'|]; [|discriminate]. cbn [get].
+  destruct t' as [n|s|es]; try discriminate. destruct (assoc c es) as [y|] eqn:E; [|discriminate].
+  intros H. inversion H. subst. exists es. split; [reflexivity | exact E].
+Qed.
+
+Lemma get_snoc t p c es : get t p = Some (Dir es) -> get t (p ++ [c]) = assoc c es.
+Proof. intros H. rewrite get_app, H. cbn [get]. destruct (assoc c es); reflexivity. Qed.
+
+Lemma get_prefix_none t p r : get t p = None -> get t (p ++ r) = None.
+Proof. intros H. rewrite get_app, H. reflexivity. Qed.
+
+Lemma del_nondir t p : is_dir t = false -> del t p = t.
+Proof. destruct p as [|c p]; [reflexivity|]. destruct t; [reflexivity | reflexivity | discriminate]. Qed.
+
+Lemma del_single es c : del (Dir es) [c] = Dir (remove_entry c es).
+Proof. reflexivity. Qed.
+
+Lemma del_cons es c p : p <> [] -> del (Dir es) (c :: p) = Dir (upd_entry c (fun t' => del t' p) es).
+Proof. destruct p; [contradiction | reflexivity]. Qed.
+
+Lemma shallow_del t p : p <> [] -> shallow (del t p) = shallow t.
+Proof.
+  intros Hp. destruct p as [|c p]; [contradiction|]. destruct t as [n|s|es]; try reflexivity.
+  destruct p; reflexivity.
+Qed.
+
+(* completeness on the tree: nothing at or beneath a deleted path is left *)
+Lemma get_del_under p : forall t x, p <> [] -> get (del t p) (p ++ x) = None.
+Proof.
+  induction p as [|c p IH]; intros t x Hp; [contradiction|].
+  destruct t as [n|s|es]; try reflexivity.
+  destruct p as [|d p'].
+  - rewrite del_single. cbn [app get]. rewrite assoc_remove_same. reflexivity.
+  - rewrite del_cons by discriminate. cbn [app get]. rewrite assoc_upd_same.
+    destruct (assoc c es) as [t'|]; cbn [option_map]; [|reflexivity].
+    apply (IH t' x). discriminate.
+Qed.
+
+(* frame on the tree: a path that is neither beneath the deleted one nor one of its ancestors keeps its whole subtree *)
+Lemma get_del_frame_full p : forall t q,
+  comp_prefix p q = false -> comp_prefix q p = false -> get (del t p) q = get t q.
+Proof.
+  induction p as [|c p IH]; intros t q H1 H2; [discriminate|].
+  destruct q as [|d q]; [discriminate|].
+  destruct t as [n|s|es]; try reflexivity.
+  cbn [comp_prefix] in H1, H2.
+  destruct (bytes_eqb c d) eqn:E.
+  - apply bytes_eqb_eq in E. subst d. rewrite bytes_eqb_refl in H2. cbn [andb] in H1, H2.
+    destruct p as [|e p']; [discriminate|].
+    rewrite del_cons by discriminate. cbn [get]. rewrite assoc_upd_same.
+    destruct (assoc c es) as [t'|]; cbn [option_map]; [|reflexivity]. apply IH; assumption.
+  - apply bytes_eqb_neq in E.
+    destruct p as [|e p'].
+    + rewrite del_single. cbn [get]. rewrite assoc_remove_other by exact E. reflexivity.
+    + rewrite del_cons by discriminate. cbn [get]. rewrite assoc_upd_other by exact E. reflexivity.
+Qed.
+
+(* frame on the tree, ancestors included: what lstat reports of a path not beneath the deleted one is unchanged *)
+Lemma get_del_frame_shallow p : forall t q,
+  comp_prefix p q = false -> option_map shallow (get (del t p) q) = option_map shallow (get t q).
+Proof.
+  induction p as [|c p IH]; intros t q H1; [discriminate|].
+  destruct q as [|d q].
+  - cbn [get option_map]. rewrite shallow_del by discriminate. reflexivity.
+  - destruct t as [n|s|es]; try reflexivity.
+    cbn [comp_prefix] in H1.
+    destruct (bytes_eqb c d) eqn:E.
+    + apply bytes_eqb_eq in E. subst d. cbn [andb] in H1.
+      destruct p as [|e p']; [discriminate|].
+      rewrite del_cons by discriminate. cbn [get]. rewrite assoc_upd_same.
+      destruct (assoc c es) as [t'|]; cbn [option_map]; [|reflexivity]. apply IH; assumption.
+    + apply bytes_eqb_neq in E.
+      destruct p as [|e p'].
+      * rewrite del_single. cbn [get]. rewrite assoc_remove_other by exact E. reflexivity.
+      * rewrite del_cons by discriminate. cbn [get]. rewrite assoc_upd_other by exact E. reflexivity.
+Qed.
+
+(* deleting something beneath p and then p is deleting p *)
+Lemma del_del_under p : forall t x, p <> [] -> del (del t (p ++ x)) p = del t p.
+Proof.
+  induction p as [|c p IH]; intros t x Hp; [contradiction|].
+  destruct t as [n|s|es].
+  - rewrite (del_nondir (File n)) by reflexivity. reflexivity.
+  - rewrite (del_nondir (Link s)) by reflexivity. reflexivity.
+  - destruct p as [|d p'].
+    + cbn [app]. destruct x as [|y x'].
+      * rewrite !del_single. rewrite remove_remove. reflexivity.
+      * rewrite (del_cons es c (y :: x')) by discriminate. rewrite !del_single, remove_upd. reflexivity.
+    + change ((c :: d :: p') ++ x) with (c :: (d :: p') ++ x).
+      rewrite (del_cons es c ((d :: p') ++ x)) by discriminate.
+      rewrite !(del_cons _ c (d :: p')) by discriminate.
+      rewrite upd_upd. f_equal. apply upd_ext. intros t'. apply IH. discriminate.
+Qed.
+
+(* after the entry n of directory d has been deleted, d holds the other entries *)
+Lemma get_del_parent d : forall t n es,
+  get t d = Some (Dir es) -> get (del t (d ++ [n])) d = Some (Dir (remove_entry n es)).
+Proof.
+  induction d as [|c d IH]; intros t n es H.
+  - cbn [get] in H. inversion H. subst t. reflexivity.
+  - cbn [get] in H. destruct t as [k|s|es0]; try discriminate.
+    destruct (assoc c es0) as [t'|] eqn:E; [|discriminate].
+    change ((c :: d) ++ [n]) with (c :: d ++ [n]).
+    rewrite del_cons by (destruct d; discriminate).
+    cbn [get]. rewrite assoc_upd_same, E. cbn [option_map]. apply IH. exact H.
+Qed.
+
+(* ---------- well-formedness and height ---------- *)
+
+Definition wfl (l : list (bytes * node)) : bool := forallb (fun e => name_ok (fst e) && wf (snd e)) l.
+
+Lemma wf_Dir es : wf (Dir es) = distinct (map fst es) && wfl es.
+Proof.
+  cbn [wf]. f_equal. induction es as [|[k v] es IH]; [reflexivity|].
+  cbn [wfl forallb fst snd]. rewrite IH. reflexivity.
+Qed.
+
+Definition hmax (l : list (bytes * node)) : nat := fold_right (fun e m => Nat.max (height (snd e)) m) O l.
+
+Lemma height_Dir es : height (Dir es) = S (hmax es).
+Proof.
+  cbn [height]. f_equal. induction es as [|[k v] es IH]; [reflexivity|].
+  cbn [hmax fold_right snd]. rewrite IH. reflexivity.
+Qed.
+
+Lemma height_child n x es : In (n, x) es -> (height x < height (Dir es))%nat.
+Proof.
+  rewrite height_Dir. induction es as [|[k v] es IH]; intros H; [contradiction|].
+  cbn [hmax fold_right snd]. destruct H as [H|H].
+  - inversion H. subst. lia.
+  - specialize (IH H). fold (hmax es). lia.
+Qed.
+
+Lemma assoc_In c es x : assoc c es = Some x -> In (c, x) es.
+Proof.
+  induction es as [|[k v] es IH]; cbn [assoc]; [discriminate|].
+  destruct (bytes_eqb k c) eqn:E.
+  - apply bytes_eqb_eq in E. subst k. intros H. inversion H. left. reflexivity.
+  - intros H. right. exact (IH H).
+Qed.
+
+Lemma height_get p : forall t x, get t p = Some x -> (height x <= height t)%nat.
+Proof.
+  induction p as [|c p IH]; intros t x H; cbn [get] in H.
+  - inversion H. lia.
+  - destruct t as [n|s|es]; try discriminate. destruct (assoc c es) as [t'|] eqn:E; [|discriminate].
+    specialize (IH t' x H). pose proof (height_child c t' es (assoc_In c es t' E)). lia.
+Qed.
+
+Lemma wfl_In es k v : wfl es = true -> In (k, v) es -> name_ok k = true /\ wf v = true.
+Proof.
+  unfold wfl. rewrite forallb_forall. intros H Hin. specialize (H (k, v) Hin). cbn [fst snd] in H.
+  apply andb_true_iff in H. exact H.
+Qed.
+
+Lemma wf_assoc es c x : wf (Dir es) = true -> assoc c es = Some x -> name_ok c = true /\ wf x = true.
+Proof.
+  rewrite wf_Dir, andb_true_iff. intros [_ H] E. exact (wfl_In es c x H (assoc_In c es x E)).
+Qed.
+
+Lemma wf_get p : forall t x, wf t = true -> get t p = Some x -> wf x = true.
+Proof.
+  induction p as [|c p IH]; intros t x Hw H; cbn [get] in H.
+  - inversion H. subst. exact Hw.
+  - destruct t as [n|s|es]; try discriminate. destruct (assoc c es) as [t'|] eqn:E; [|discriminate].
+    destruct (wf_assoc es c t' Hw E) as [_ Hw']. exact (IH t' x Hw' H).
+Qed.
+
+Lemma wf_cons n x es :
+  wf (Dir ((n, x) :: es)) = true ->
+  name_ok n = true /\ mem_bytes n (map fst es) = false /\ wf x = true /\ wf (Dir es) = true.
+Proof.
+  rewrite !wf_Dir. cbn [map fst distinct wfl forallb snd]. fold (wfl es).
+  rewrite !andb_true_iff, negb_true_iff. intros [[H1 H2] [[H3 H4] H5]]. auto.
+Qed.
+
+Lemma mem_remove x c es :
+  mem_bytes x (map fst (remove_entry c es)) = true -> mem_bytes x (map fst es) = true.
+Proof.
+  induction es as [|[k v] es IH]; cbn [remove_entry map fst mem_bytes]; [discriminate|].
+  destruct (bytes_eqb k c).
+  - intros H. rewrite (IH H). apply orb_true_r.
+  - cbn [map fst mem_bytes]. intros H. apply orb_true_iff in H. destruct H as [H|H].
+    + rewrite H. reflexivity.
+    + rewrite (IH H). apply orb_true_r.
+Qed.
+
+Lemma distinct_remove c es : distinct (map fst es) = true -> distinct (map fst (remove_entry c es)) = true.
+Proof.
+  induction es as [|[k v] es IH]; cbn [remove_entry map fst distinct]; [reflexivity|].
+  intros H. apply andb_true_iff in H. destruct H as [H1 H2].
+  destruct (bytes_eqb k c); [exact (IH H2)|].
+  cbn [map fst distinct]. rewrite (IH H2), andb_true_r.
+  apply negb_true_iff. apply negb_true_iff in H1.
+  destruct (mem_bytes k (map fst (remove_entry c es))) eqn:E; [|reflexivity].
+  apply mem_remove in E. congruence.
+Qed.
+
+Lemma wfl_remove c es : wfl es = true -> wfl (remove_entry c es) = true.
+Proof.
+  unfold wfl. induction es as [|[k v] es IH]; cbn [remove_entry forallb]; [reflexivity|].
+  intros H. apply andb_true_iff in H. destruct H as [H1 H2].
+  destruct (bytes_eqb k c); [exact (IH H2)|]. cbn [forallb]. rewrite H1, (IH H2). reflexivity.
+Qed.
+
+Lemma wfl_upd c f es : (forall v, wf v = true -> wf (f v) = true) -> wfl es = true -> wfl (upd_entry c f es) = true.
+Proof.
+  intros Hf. unfold wfl. induction es as [|[k v] es IH]; cbn [upd_entry forallb]; [reflexivity|].
+  intros H. apply andb_true_iff in H. destruct H as [H1 H2]. cbn [fst snd] in H1.
+  apply andb_true_iff in H1. destruct H1 as [Hk Hv].
+  destruct (bytes_eqb k c); cbn [forallb fst snd].
+  - rewrite Hk, (Hf v Hv), H2. reflexivity.
+  - rewrite Hk, Hv, (IH H2). reflexivity.
+Qed.
+
+(* deletion keeps a tree well-formed *)
+Lemma wf_del p : forall t, wf t = true -> wf (del t p) = true.
+Proof.
+  induction p as [|c p IH]; intros t H; [exact H|].
+  destruct t as [n|s|es]; try exact H.
+  rewrite wf_Dir in H. apply andb_true_iff in H. destruct H as [H1 H2].
+  destruct p as [|d p'].
+  - rewrite del_single, wf_Dir, (distinct_remove c es H1), (wfl_remove c es H2). reflexivity.
+  - rewrite del_cons by discriminate. rewrite wf_Dir, upd_names, H1. cbn [andb].
+    apply wfl_upd; [|exact H2]. intros v Hv. apply IH. exact Hv.
+Qed.
+
+(* deletion creates no link on the way *)
+Lemma nolink_del cs : forall t p, nolink t cs = true -> nolink (del t p) cs = true.
+Proof.
+  induction cs as [|c cs IH]; intros t p H; [reflexivity|].
+  destruct p as [|d p]; [exact H|].
+  destruct t as [n|s|es]; try exact H.
+  cbn [nolink] in H.
+  destruct (bytes_eqb d c) eqn:E.
+  - apply bytes_eqb_eq in E. subst d. destruct p as [|e p'].
+    + rewrite del_single. cbn [nolink]. rewrite assoc_remove_same. reflexivity.
+    + rewrite del_cons by discriminate. cbn [nolink]. rewrite assoc_upd_same.
+      destruct (assoc c es) as [t'|]; cbn [option_map]; [|reflexivity].
+      destruct t' as [k|s|es'].
+      * rewrite (del_nondir (File k)) by reflexivity. exact H.
+      * discriminate.
+      * specialize (IH (Dir es') (e :: p') H). destruct (del (Dir es') (e :: p')) eqn:Ed; try exact IH.
+        pose proof (shallow_del (Dir es') (e :: p')) as Hs. rewrite Ed in Hs. cbn in Hs. discriminate Hs. discriminate.
+  - apply bytes_eqb_neq in E. destruct p as [|e p'].
+    + rewrite del_single. cbn [nolink]. rewrite assoc_remove_other by exact E. exact H.
+    + rewrite del_cons by discriminate. cbn [nolink]. rewrite assoc_upd_other by exact E. exact H.
+Qed.
+
+(* ---------- path resolution ---------- *)
+
+Lemma walk_nil lk fs fl cwd : walk lk fs fl cwd [] = WOk cwd.
+Proof. destruct lk; reflexivity. Qed.
+
+Lemma walk_cons lk fs fl cwd c rest :
+  walk lk fs fl cwd (c :: rest) =
+    if is_dot c then walk lk fs fl cwd rest
+    else if is_dotdot c then walk lk fs fl (removelast cwd) rest
+    else match get fs cwd with
+         | Some (Dir es) =>
+           match assoc c es with
+           | None => WErr ENOENT
+           | Some (Dir _) => walk lk fs fl (cwd ++ [c]) rest
+           | Some (File _) => match rest with [] => WOk (cwd ++ [c]) | _ => WErr ENOTDIR end
+           | Some (Link t) =>
+             if last_nofollow rest fl then WOk (cwd ++ [c])
+             else match lk with
+                  | O => WErr ELOOP
+                  | S lk' => walk lk' fs fl (if absolute t then [] else cwd) (tcomps t ++ rest)
+                  end
+           end
+         | _ => WErr ENOTDIR
+         end.
+Proof. destruct lk; reflexivity. Qed.
+
+Lemma name_ok_nodots c : name_ok c = true -> is_dot c = false /\ is_dotdot c = false.
+Proof.
+  unfold name_ok, is_dots. rewrite andb_true_iff, negb_true_iff, orb_false_iff. intros [_ H]. exact H.
+Qed.
+
+(* one step through a real directory *)
+Lemma walk_step lk fs fl cwd c rest es :
+  name_ok c = true -> get fs cwd = Some (Dir es) ->
+  walk lk fs fl cwd (c :: rest) =
+    match assoc c es with
+    | None => WErr ENOENT
+    | Some (Dir _) => walk lk fs fl (cwd ++ [c]) rest
+    | Some (File _) => match rest with [] => WOk (cwd ++ [c]) | _ => WErr ENOTDIR end
+    | Some (Link t) =>
+      if last_nofollow rest fl then WOk (cwd ++ [c])
+      else match lk with
+           | O => WErr ELOOP
+           | S lk' => walk lk' fs fl (if absolute t then [] else cwd) (tcomps t ++ rest)
+           end
+    end.
+Proof.
+  intros Hn Hg. rewrite walk_cons. destruct (name_ok_nodots c Hn) as [-> ->]. rewrite Hg. reflexivity.
+Qed.
+
+(* walking along real directories: the canonical path is the lexical one *)
+Lemma walk_through lk fs fl cs : forall cwd t es rest,
+  get fs cwd = Some t -> get t cs = Some (Dir es) -> plain_comps cs = true ->
+  walk lk fs fl cwd (cs ++ rest) = walk lk fs fl (cwd ++ cs) rest.
+Proof.
+  induction cs as [|c cs IH]; intros cwd t es rest Hc Ht Hp.
+  - rewrite app_nil_r. reflexivity.
+  - cbn [plain_comps forallb] in Hp. apply andb_true_iff in Hp. destruct Hp as [Hn Hp].
+    cbn [get] in Ht. destruct t as [n|s|es0]; try discriminate.
+    destruct (assoc c es0) as [t'|] eqn:E; [|discriminate].
+    cbn [app]. rewrite (walk_step lk fs fl cwd c (cs ++ rest) es0 Hn Hc), E.
+    assert (Hd : exists es', t' = Dir es').
+    { destruct t' as [n|s|es']; [destruct cs; discriminate | destruct cs; discriminate | exists es'; reflexivity]. }
+    destruct Hd as [es' ->].
+    replace (cwd ++ c :: cs) with ((cwd ++ [c]) ++ cs) by (rewrite <- app_assoc; reflexivity).
+    apply (IH (cwd ++ [c]) (Dir es') es rest); [|exact Ht|exact Hp].
+    rewrite (get_snoc fs cwd c es0 Hc). exact E.
+Qed.
+
+(* the only errors of a resolution *)
+Lemma walk_err_kinds fs : forall lk fl rest cwd e,
+  walk lk fs fl cwd rest = WErr e -> e = ENOENT \/ e = ENOTDIR \/ e = ELOOP.
+Proof.
+  induction lk as [|lk IHlk]; intros fl rest; induction rest as [|c rest IHr]; intros cwd e H;
+    try (rewrite walk_nil in H; discriminate); rewrite walk_cons in H.
+  - destruct (is_dot c); [exact (IHr _ _ H)|]. destruct (is_dotdot c); [exact (IHr _ _ H)|].
+    destruct (get fs cwd) as [[n|s|es]|]; try (inversion H; auto; fail).
+    destruct (assoc c es) as [[n|s|es']|]; try (inversion H; auto; fail).
+    + destruct rest; inversion H; auto.
+    + destruct (last_nofollow rest fl); inversion H; auto.
+    + exact (IHr _ _ H).
+  - destruct (is_dot c); [exact (IHr _ _ H)|]. destruct (is_dotdot c); [exact (IHr _ _ H)|].
+    destruct (get fs cwd) as [[n|s|es]|]; try (inversion H; auto; fail).
+    destruct (assoc c es) as [[n|s|es']|]; try (inversion H; auto; fail).
+    + destruct rest; inversion H; auto.
+    + destruct (last_nofollow rest fl); [discriminate | exact (IHlk _ _ _ _ H)].
+    + exact (IHr _ _ H).
+Qed.
+
+(* without a link on the way a successful resolution ends at the lexical path *)
+Lemma walk_nolink lk fs fl cs : forall cwd t d,
+  get fs cwd = Some t -> plain_comps cs = true -> nolink t cs = true ->
+  walk lk fs fl cwd cs = WOk d -> d = cwd ++ cs /\ exists x, get t cs = Some x.
+Proof.
+  induction cs as [|c cs IH]; intros cwd t d Hc Hp Hn H.
+  - rewrite walk_nil in H. inversion H. rewrite app_nil_r. split; [reflexivity | exists t; reflexivity].
+  - cbn [plain_comps forallb] in Hp. apply andb_true_iff in Hp. destruct Hp as [Hk Hp].
+    rewrite walk_cons in H. destruct (name_ok_nodots c Hk) as [E1 E2]. rewrite E1, E2, Hc in H.
+    destruct t as [n|s|es]; try discriminate.
+    cbn [nolink] in Hn. cbn [get].
+    destruct (assoc c es) as [t'|] eqn:E; [|discriminate].
+    destruct t' as [n|s|es'].
+    + destruct cs; [|discriminate]. inversion H. split; [reflexivity | exists (File n); reflexivity].
+    + discriminate.
+    + assert (Hc' : get fs (cwd ++ [c]) = Some (Dir es')) by (rewrite (get_snoc fs cwd c es Hc); exact E).
+      destruct (IH (cwd ++ [c]) (Dir es') d Hc' Hp Hn H) as [Hd Hx].
+      split; [rewrite Hd, <- app_assoc; reflexivity | exact Hx].
+Qed.
+
+(* ---------- the system calls on an entry of a real directory reached along real directories ---------- *)
+
+Section AtRealDir.
+  Variable fs : node.
+  Variable P : list bytes.
+  Variable pes : list (bytes * node).
+  Variable c : bytes.
+  Hypothesis Hg : get fs P = Some (Dir pes).
+  Hypothesis Hp : plain_comps P = true.
+  Hypothesis Hn : name_ok c = true.
+
+  Lemma walk_to lk fl rest : walk lk fs fl [] (P ++ rest) = walk lk fs fl P rest.
+  Proof. apply (walk_through lk fs fl P [] fs pes rest); [reflexivity | exact Hg | exact Hp]. Qed.
+
+  Lemma is_dot_dot : is_dot [46] = true.
+  Proof. reflexivity. Qed.
+
+  Lemma get_at : get fs (P ++ [c]) = assoc c pes.
+  Proof. exact (get_snoc fs P c pes Hg). Qed.
+
+  Lemma lstat_at_false :
+    sys_lstat fs (P ++ [c]) false = match assoc c pes with None => inl ENOENT | Some x => inr (shallow x) end.
+  Proof.
+    unfold sys_lstat. cbn [dotif]. rewrite app_nil_r, walk_to, (walk_step _ fs false P c [] pes Hn Hg).
+    destruct (assoc c pes) as [x|] eqn:E; [|reflexivity].
+    destruct x as [n|s|es]; cbn [last_nofollow negb]; rewrite ?walk_nil, get_at, E; reflexivity.
+  Qed.
+
+  Lemma lstat_at_dir es trail : assoc c pes = Some (Dir es) -> sys_lstat fs (P ++ [c]) trail = inr KDir.
+  Proof.
+    intros E. unfold sys_lstat. rewrite <- app_assoc, walk_to. cbn [app].
+    rewrite (walk_step _ fs false P c (dotif trail) pes Hn Hg), E.
+    destruct trail; cbn [dotif].
+    - rewrite walk_cons, is_dot_dot, walk_nil, get_at, E. reflexivity.
+    - rewrite walk_nil, get_at, E. reflexivity.
+  Qed.
+
+  Lemma walk_parent : walk maxlinks fs true [] P = WOk P.
+  Proof. rewrite <- (app_nil_r P) at 1. rewrite walk_to. apply walk_nil. Qed.
+
+  Lemma snoc_not_nil : P ++ [c] <> [].
+  Proof. destruct P; discriminate. Qed.
+
+  Lemma unlink_at trail :
+    sys_unlink fs (P ++ [c]) trail =
+      match assoc c pes with
+      | None => (fs, Some ENOENT)
+      | Some (Dir _) => (fs, Some EISDIR)
+      | Some _ => if trail then (fs, Some ENOTDIR) else (del fs (P ++ [c]), None)
+      end.
+  Proof.
+    unfold sys_unlink. destruct (P ++ [c]) as [|a l] eqn:E0; [exfalso; exact (snoc_not_nil E0)|]. rewrite <- E0.
+    rewrite removelast_last, last_last, walk_parent, Hg.
+    unfold is_dots. destruct (name_ok_nodots c Hn) as [-> ->]. reflexivity.
+  Qed.
+
+  Lemma rmdir_at :
+    sys_rmdir fs (P ++ [c]) =
+      match assoc c pes with
+      | None => (fs, Some ENOENT)
+      | Some (Dir []) => (del fs (P ++ [c]), None)
+      | Some (Dir _) => (fs, Some ENOTEMPTY)
+      | Some _ => (fs, Some ENOTDIR)
+      end.
+  Proof.
+    unfold sys_rmdir. destruct (P ++ [c]) as [|a l] eqn:E0; [exfalso; exact (snoc_not_nil E0)|]. rewrite <- E0.
+    rewrite removelast_last, last_last, walk_parent, Hg.
+    destruct (name_ok_nodots c Hn) as [-> ->]. reflexivity.
+  Qed.
+End AtRealDir.
+
+Lemma readdir_at fs D es :
+  get fs D = Some (Dir es) -> plain_comps D = true -> sys_readdir fs D = inr (map fst es).
+Proof.
+  intros Hg Hp. unfold sys_readdir. rewrite (walk_parent fs D es Hg Hp), Hg. reflexivity.
+Qed.
+
+Lemma llvm_remove_nondir fs P pes c x :
+  get fs P = Some (Dir pes) -> plain_comps P = true -> name_ok c = true ->
+  assoc c pes = Some x -> is_dir x = false ->
+  llvm_remove fs (P ++ [c]) false = (del fs (P ++ [c]), None).
+Proof.
+  intros Hg Hp Hn E Hx. unfold llvm_remove, libc_remove.
+  rewrite (lstat_at_false fs P pes c Hg Hp Hn), E, (unlink_at fs P pes c Hg Hp Hn), E.
+  destruct x; [reflexivity | reflexivity | discriminate].
+Qed.
+
+Lemma llvm_remove_emptydir fs P pes c trail :
+  get fs P = Some (Dir pes) -> plain_comps P = true -> name_ok c = true ->
+  assoc c pes = Some (Dir []) ->
+  llvm_remove fs (P ++ [c]) trail = (del fs (P ++ [c]), None).
+Proof.
+  intros Hg Hp Hn E. unfold llvm_remove, libc_remove.
+  rewrite (lstat_at_dir fs P pes c Hg Hp Hn [] trail E), (unlink_at fs P pes c Hg Hp Hn), E.
+  rewrite (rmdir_at fs P pes c Hg Hp Hn), E. reflexivity.
+Qed.
+
+Lemma plain_snoc D n : plain_comps D = true -> name_ok n = true -> plain_comps (D ++ [n]) = true.
+Proof.
+  unfold plain_comps. intros H1 H2. rewrite forallb_app, H1. cbn [forallb]. rewrite H2. reflexivity.
+Qed.
+
+(* ---------- the recursive removal of a directory reached along real directories ---------- *)
+
+(* the loop over the entries: every entry is removed (given that the recursive call removes sub-directories) *)
+Lemma rm_loop_spec (rec : node -> list bytes -> node * result) D f :
+  plain_comps D = true ->
+  (forall fs' n ces, name_ok n = true -> get fs' (D ++ [n]) = Some (Dir ces) -> wf (Dir ces) = true ->
+                     (height (Dir ces) <= f)%nat -> rec fs' (D ++ [n]) = (del fs' (D ++ [n]), None)) ->
+  forall es fs,
+    get fs D = Some (Dir es) -> wf (Dir es) = true ->
+    (forall n x, In (n, x) es -> (height x <= f)%nat) ->
+    exists fs', rm_loop rec fs D (map fst es) = (fs', None) /\ get fs' D = Some (Dir []) /\
+                (D <> [] -> del fs' D = del fs D).
+Proof.
+  intros Hp Hrec. induction es as [|[n x] es IH]; intros fs Hg Hw Hh.
+  - exists fs. split; [reflexivity | split; [exact Hg | reflexivity]].
+  - destruct (wf_cons n x es Hw) as [Hn [Hnot [Hwx Hwes]]].
+    cbn [map fst rm_loop].
+    assert (E : assoc n ((n, x) :: es) = Some x) by (cbn [assoc]; rewrite bytes_eqb_refl; reflexivity).
+    rewrite (lstat_at_false fs D _ n Hg Hp Hn), E.
+    assert (Hstep : (match shallow x with
+                     | KDir => rec fs (D ++ [n])
+                     | _ => llvm_remove fs (D ++ [n]) false
+                     end) = (del fs (D ++ [n]), None)).
+    { destruct x as [k|s|ces]; cbn [shallow].
+      - apply (llvm_remove_nondir fs D _ n (File k) Hg Hp Hn E). reflexivity.
+      - apply (llvm_remove_nondir fs D _ n (Link s) Hg Hp Hn E). reflexivity.
+      - apply (Hrec fs n ces Hn); [rewrite (get_snoc fs D n _ Hg); exact E | exact Hwx |].
+        apply (Hh n (Dir ces)). left. reflexivity. }
+    rewrite Hstep.
+    assert (Hg1 : get (del fs (D ++ [n])) D = Some (Dir es)).
+    { rewrite (get_del_parent D fs n _ Hg). cbn [remove_entry]. rewrite bytes_eqb_refl.
+      rewrite (remove_notin n es Hnot). reflexivity. }
+    destruct (IH (del fs (D ++ [n])) Hg1 Hwes (fun m y Hin => Hh m y (or_intror Hin))) as [fs' [H1 [H2 H3]]].
+    exists fs'. split; [exact H1 | split; [exact H2|]].
+    intros Hne. rewrite (H3 Hne). apply del_del_under. exact Hne.
+Qed.
+
+(* _remove_all_r on a directory reached along real directories removes exactly that directory *)
+Lemma rm_tree_r_spec : forall fuel fs P c es trail,
+  plain_comps P = true -> name_ok c = true ->
+  get fs (P ++ [c]) = Some (Dir es) -> wf (Dir es) = true -> (height (Dir es) <= fuel)%nat ->
+  rm_tree_r fuel fs (P ++ [c]) trail = (del fs (P ++ [c]), None).
+Proof.
+  induction fuel as [|f IH]; intros fs P c es trail Hp Hn Hg Hw Hh.
+  - rewrite height_Dir in Hh. lia.
+  - cbn [rm_tree_r].
+    pose proof (plain_snoc P c Hp Hn) as HpD.
+    rewrite (readdir_at fs (P ++ [c]) es Hg HpD).
+    assert (Hrec : forall fs' n ces, name_ok n = true -> get fs' ((P ++ [c]) ++ [n]) = Some (Dir ces) ->
+                     wf (Dir ces) = true -> (height (Dir ces) <= f)%nat ->
+                     (fun fs'' p => rm_tree_r f fs'' p false) fs' ((P ++ [c]) ++ [n]) = (del fs' ((P ++ [c]) ++ [n]), None)).
+    { intros fs' n ces Hn' Hg' Hw' Hh'. apply (IH fs' (P ++ [c]) n ces false HpD Hn' Hg' Hw' Hh'). }
+    assert (Hch : forall n x, In (n, x) es -> (height x <= f)%nat).
+    { intros n x Hin. pose proof (height_child n x es Hin). lia. }
+    destruct (rm_loop_spec _ (P ++ [c]) f HpD Hrec es fs Hg Hw Hch) as [fs' [H1 [H2 H3]]].
+    rewrite H1.
+    destruct (get_snoc_inv fs' P c (Dir []) H2) as [pes [Hgp Ea]].
+    rewrite (llvm_remove_emptydir fs' P pes c trail Hgp Hp Hn Ea).
+    rewrite H3; [reflexivity | destruct P; discriminate].
+Qed.
+
+(* ---------- LocalFileSystem::remove on a path without a link on the way ---------- *)
+
+Lemma unlink_fail fs P c trail :
+  (forall pes, get fs P <> Some (Dir pes)) -> plain_comps P = true -> nolink fs P = true ->
+  exists e, sys_unlink fs (P ++ [c]) trail = (fs, Some e) /\ (errno_eqb e EPERM || errno_eqb e EISDIR) = false.
+Proof.
+  intros Hnd Hp Hl. unfold sys_unlink.
+  destruct (P ++ [c]) as [|a l] eqn:E0; [destruct P; discriminate|]. rewrite <- E0.
+  rewrite removelast_last, last_last.
+  destruct (walk maxlinks fs true [] P) as [d|e] eqn:W.
+  - destruct (walk_nolink maxlinks fs true P [] fs d eq_refl Hp Hl W) as [Hd [x Hx]].
+    cbn [app] in Hd. subst d. rewrite Hx.
+    destruct x as [n|s|es]; [| |exfalso; exact (Hnd es Hx)]; exists ENOTDIR; split; reflexivity.
+  - exists e. split; [reflexivity|].
+    destruct (walk_err_kinds fs _ _ _ _ _ W) as [->|[->| ->]]; reflexivity.
+Qed.
+
+Definition outcome (r : node * result) : node * bool := (fst r, succeeded (snd r)).
+
+Lemma plain_app_inv a b : plain_comps (a ++ b) = true -> plain_comps a = true /\ plain_comps b = true.
+Proof. unfold plain_comps. rewrite forallb_app, andb_true_iff. auto. Qed.
+
+Theorem remove_nolink_spec fs cs trail :
+  wf fs = true -> cs <> [] -> plain_comps cs = true -> no_link_on_the_way fs cs = true ->
+  outcome (remove fs cs trail) = remove_spec fs cs trail.
+Proof.
+  intros Hw Hne Hp Hl. unfold no_link_on_the_way in Hl.
+  destruct (exists_last Hne) as [P [c ->]]. clear Hne. rewrite removelast_last in Hl.
+  destruct (plain_app_inv P [c] Hp) as [HpP Hc]. cbn [plain_comps forallb] in Hc. rewrite andb_true_r in Hc.
+  unfold remove_spec, remove.
+  destruct (get fs P) as [[n|s|pes]|] eqn:Hg.
+  4: { destruct (unlink_fail fs P c trail) as [e [-> He]]; [intros pes; congruence | exact HpP | exact Hl |].
+       rewrite He. cbn [negb]. rewrite get_app, Hg. reflexivity. }
+  1, 2: destruct (unlink_fail fs P c trail) as [e [-> He]]; [intros pes; congruence | exact HpP | exact Hl |];
+        rewrite He; cbn [negb]; rewrite get_app, Hg; reflexivity.
+  rewrite (unlink_at fs P pes c Hg HpP Hc), (get_at fs P pes c Hg).
+  destruct (assoc c pes) as [x|] eqn:E; [|reflexivity].
+  destruct x as [n|s|es].
+  - destruct trail; reflexivity.
+  - destruct trail; reflexivity.
+  - cbn [errno_eqb orb negb]. rewrite (lstat_at_dir fs P pes c Hg HpP Hc es trail E).
+    rewrite (rmdir_at fs P pes c Hg HpP Hc), E.
+    destruct es as [|e0 es']; [reflexivity|].
+    assert (Hgd : get fs (P ++ [c]) = Some (Dir (e0 :: es'))) by (rewrite (get_at fs P pes c Hg); exact E).
+    rewrite (rm_tree_r_spec (height fs) fs P c (e0 :: es') trail HpP Hc Hgd).
+    + reflexivity.
+    + exact (wf_get _ fs _ Hw Hgd).
+    + exact (height_get _ fs _ Hgd).
+Qed.
+
+(* ---------- the statements about one call ---------- *)
+
+Lemma remove_spec_removable fs cs trail :
+  remove_spec fs cs trail = if removable_at fs cs trail then (del fs cs, true) else (fs, false).
+Proof.
+  unfold remove_spec, removable_at. destruct (get fs cs) as [[n|s|es]|]; try reflexivity; destruct trail; reflexivity.
+Qed.
+
+Lemma remove_nolink_fst fs cs trail :
+  wf fs = true -> cs <> [] -> plain_comps cs = true -> no_link_on_the_way fs cs = true ->
+  fst (remove fs cs trail) = if removable_at fs cs trail then del fs cs else fs.
+Proof.
+  intros Hw Hne Hp Hl. pose proof (remove_nolink_spec fs cs trail Hw Hne Hp Hl) as H.
+  rewrite remove_spec_removable in H. unfold outcome in H.
+  destruct (removable_at fs cs trail); exact (f_equal fst H).
+Qed.
+
+Lemma remove_nolink_snd fs cs trail :
+  wf fs = true -> cs <> [] -> plain_comps cs = true -> no_link_on_the_way fs cs = true ->
+  succeeded (snd (remove fs cs trail)) = removable_at fs cs trail.
+Proof.
+  intros Hw Hne Hp Hl. pose proof (remove_nolink_spec fs cs trail Hw Hne Hp Hl) as H.
+  rewrite remove_spec_removable in H. unfold outcome in H.
+  destruct (removable_at fs cs trail); exact (f_equal snd H).
+Qed.
+
+(* frame: what lstat reports of any canonical path that is not beneath the removed one is unchanged *)
+Theorem remove_frame fs cs trail q :
+  wf fs = true -> cs <> [] -> plain_comps cs = true -> no_link_on_the_way fs cs = true ->
+  comp_prefix cs q = false ->
+  option_map shallow (get (fst (remove fs cs trail)) q) = option_map shallow (get fs q).
+Proof.
+  intros Hw Hne Hp Hl Hq. rewrite (remove_nolink_fst fs cs trail Hw Hne Hp Hl).
+  destruct (removable_at fs cs trail); [apply get_del_frame_shallow; exact Hq | reflexivity].
+Qed.
+
+(* frame, whole subtrees: a path that is neither beneath the removed one nor one of its ancestors keeps everything *)
+Theorem remove_frame_subtree fs cs trail q :
+  wf fs = true -> cs <> [] -> plain_comps cs = true -> no_link_on_the_way fs cs = true ->
+  comp_prefix cs q = false -> comp_prefix q cs = false ->
+  get (fst (remove fs cs trail)) q = get fs q.
+Proof.
+  intros Hw Hne Hp Hl Hq Hq'. rewrite (remove_nolink_fst fs cs trail Hw Hne Hp Hl).
+  destruct (removable_at fs cs trail); [apply get_del_frame_full; assumption | reflexivity].
+Qed.
+
+(* completeness: after a successful call nothing at or beneath the path is left *)
+Theorem remove_complete fs cs trail x :
+  wf fs = true -> cs <> [] -> plain_comps cs = true -> no_link_on_the_way fs cs = true ->
+  snd (remove fs cs trail) = None ->
+  get (fst (remove fs cs trail)) (cs ++ x) = None.
+Proof.
+  intros Hw Hne Hp Hl Hs. pose proof (remove_nolink_snd fs cs trail Hw Hne Hp Hl) as H.
+  rewrite Hs in H. cbn [succeeded] in H.
+  rewrite (remove_nolink_fst fs cs trail Hw Hne Hp Hl), <- H. apply get_del_under. exact Hne.
+Qed.
+
+(* a failing call leaves the tree as it was *)
+Theorem remove_error_unchanged fs cs trail e :
+  wf fs = true -> cs <> [] -> plain_comps cs = true -> no_link_on_the_way fs cs = true ->
+  snd (remove fs cs trail) = Some e ->
+  fst (remove fs cs trail) = fs.
+Proof.
+  intros Hw Hne Hp Hl Hs. pose proof (remove_nolink_snd fs cs trail Hw Hne Hp Hl) as H.
+  rewrite Hs in H. cbn [succeeded] in H.
+  rewrite (remove_nolink_fst fs cs trail Hw Hne Hp Hl), <- H. reflexivity.
+Qed.
+
+(* the call succeeds exactly when the path names a directory, or a file or link spelled without trailing separator *)
+Theorem remove_succeeds_iff fs cs trail :
+  wf fs = true -> cs <> [] -> plain_comps cs = true -> no_link_on_the_way fs cs = true ->
+  (snd (remove fs cs trail) = None <-> removable_at fs cs trail = true).
+Proof.
+  intros Hw Hne Hp Hl. rewrite <- (remove_nolink_snd fs cs trail Hw Hne Hp Hl).
+  destruct (snd (remove fs cs trail)); cbn [succeeded]; split; congruence.
+Qed.
+
+Lemma remove_path_unfold fs s : comps s <> [] -> remove_path fs s = remove fs (comps s) (trail_of s).
+Proof. destruct s; [intros H; exfalso; apply H; reflexivity | reflexivity]. Qed.
+
+(* ---------- the loop of StaleFileRemovalCommand::execute ---------- *)
+
+(* the current tree [fs] is the original [fs0] without what the paths processed so far cover *)
+Definition stale_inv (fs0 : node) (processed : list bytes) (fs : node) : Prop :=
+  forall q, option_map shallow (get fs q) =
+            if covered fs0 processed q then None else option_map shallow (get fs0 q).
+
+Lemma covered_app fs ds1 ds2 q : covered fs (ds1 ++ ds2) q = covered fs ds1 q || covered fs ds2 q.
+Proof. unfold covered. apply existsb_app. Qed.
+
+Lemma covered_mono fs ds p q : covered fs ds p = true -> comp_prefix p q = true -> covered fs ds q = true.
+Proof.
+  unfold covered. rewrite !existsb_exists. intros [d [Hin Hd]] Hpq. exists d. split; [exact Hin|].
+  apply andb_true_iff in Hd. destruct Hd as [H1 H2]. rewrite H1. cbn [andb].
+  exact (comp_prefix_trans _ _ _ H2 Hpq).
+Qed.
+
+Lemma removable_shallow a b cs t :
+  option_map shallow (get a cs) = option_map shallow (get b cs) -> removable_at a cs t = removable_at b cs t.
+Proof.
+  unfold removable_at. destruct (get a cs) as [[n|s|es]|]; destruct (get b cs) as [[n'|s'|es']|];
+    cbn [option_map shallow]; intros H; try discriminate; reflexivity.
+Qed.
+
+Lemma stale_step fs0 processed fs d :
+  wf fs = true -> comps d <> [] -> plain_comps (comps d) = true -> no_link_on_the_way fs (comps d) = true ->
+  stale_inv fs0 processed fs -> stale_inv fs0 (processed ++ [d]) (fst (remove_path fs d)).
+Proof.
+  intros Hw Hne Hp Hl Inv q.
+  rewrite (remove_path_unfold fs d Hne), (remove_nolink_fst fs (comps d) (trail_of d) Hw Hne Hp Hl).
+  rewrite covered_app. unfold covered at 2. cbn [existsb]. rewrite orb_false_r.
+  pose proof (Inv (comps d)) as Hcd. pose proof (Inv q) as Hq.
+  destruct (covered fs0 processed (comps d)) eqn:Cd.
+  - assert (Hnone : get fs (comps d) = None) by (destruct (get fs (comps d)); [discriminate | reflexivity]).
+    unfold removable_at. rewrite Hnone, Hq.
+    destruct (covered fs0 processed q) eqn:Cq; [reflexivity|].
+    destruct (comp_prefix (comps d) q) eqn:Pq.
+    + rewrite (covered_mono fs0 processed (comps d) q Cd Pq) in Cq. discriminate.
+    + rewrite andb_false_r. reflexivity.
+  - rewrite (removable_shallow fs fs0 (comps d) (trail_of d) Hcd). fold (removable fs0 d).
+    destruct (removable fs0 d) eqn:R; cbn [andb].
+    + destruct (comp_prefix (comps d) q) eqn:Pq.
+      * rewrite orb_true_r. apply comp_prefix_spec in Pq. destruct Pq as [x ->].
+        rewrite get_del_under by exact Hne. reflexivity.
+      * rewrite orb_false_r, get_del_frame_shallow by exact Pq. exact Hq.
+    + rewrite orb_false_r. exact Hq.
+Qed.
+
+Lemma scope_step fs d ds :
+  wf fs = true -> stale_scope fs (d :: ds) ->
+  wf (fst (remove_path fs d)) = true /\ stale_scope (fst (remove_path fs d)) ds.
+Proof.
+  intros Hw Hs. destruct (Hs d (or_introl eq_refl)) as [Hne [Hp Hl]].
+  rewrite (remove_path_unfold fs d Hne), (remove_nolink_fst fs (comps d) (trail_of d) Hw Hne Hp Hl).
+  destruct (removable_at fs (comps d) (trail_of d)).
+  - split; [apply wf_del; exact Hw|]. intros d' Hin. destruct (Hs d' (or_intror Hin)) as [H1 [H2 H3]].
+    split; [exact H1 | split; [exact H2|]]. unfold no_link_on_the_way in *. apply nolink_del. exact H3.
+  - split; [exact Hw|]. intros d' Hin. exact (Hs d' (or_intror Hin)).
+Qed.
+
+Lemma stale_fold : forall ds fs0 processed fs,
+  wf fs = true -> stale_scope fs ds -> stale_inv fs0 processed fs ->
+  stale_inv fs0 (processed ++ ds) (stale_apply fs ds).
+Proof.
+  induction ds as [|d ds IH]; intros fs0 processed fs Hw Hs Inv.
+  - rewrite app_nil_r. exact Inv.
+  - destruct (Hs d (or_introl eq_refl)) as [Hne [Hp Hl]].
+    destruct (scope_step fs d ds Hw Hs) as [Hw' Hs'].
+    pose proof (stale_step fs0 processed fs d Hw Hne Hp Hl Inv) as Inv'.
+    replace (processed ++ d :: ds) with ((processed ++ [d]) ++ ds) by (rewrite <- app_assoc; reflexivity).
+    unfold stale_apply. cbn [fold_left]. apply (IH fs0 (processed ++ [d]) _ Hw' Hs' Inv').
+Qed.
+
+(* the exact effect of the loop: what lstat reports of ANY canonical path afterwards is "nothing" when one of the
+   listed paths that named something removable is a component-prefix of it, and what it was before otherwise *)
+Theorem stale_apply_exact fs ds q :
+  wf fs = true -> stale_scope fs ds ->
+  option_map shallow (get (stale_apply fs ds) q) =
+    if covered fs ds q then None else option_map shallow (get fs q).
+Proof.
+  intros Hw Hs. apply (stale_fold ds fs [] fs Hw Hs). intros q'. reflexivity.
+Qed.
+
+(* a path that existed is gone iff a listed path that named something removable is a component-prefix of it *)
+Theorem stale_apply_gone_iff fs ds q x :
+  wf fs = true -> stale_scope fs ds -> get fs q = Some x ->
+  (get (stale_apply fs ds) q = None <->
+   exists d, In d ds /\ removable fs d = true /\ comp_prefix (comps d) q = true).
+Proof.
+  intros Hw Hs Hx. pose proof (stale_apply_exact fs ds q Hw Hs) as H. rewrite Hx in H. cbn [option_map] in H.
+  assert (Hc : covered fs ds q = true <-> exists d, In d ds /\ removable fs d = true /\ comp_prefix (comps d) q = true).
+  { unfold covered. rewrite existsb_exists. split; intros [d [H1 H2]]; exists d.
+    - apply andb_true_iff in H2. tauto.
+    - split; [exact H1 | apply andb_true_iff; exact H2]. }
+  rewrite <- Hc. destruct (covered fs ds q).
+  - split; [reflexivity|]. intros _. destruct (get (stale_apply fs ds) q); [discriminate | reflexivity].
+  - split; [|discriminate]. intros Hn. rewrite Hn in H. discriminate.
+Qed.
+
+(* everything else is unchanged *)
+Theorem stale_apply_untouched fs ds q :
+  wf fs = true -> stale_scope fs ds ->
+  (forall d, In d ds -> comp_prefix (comps d) q = false) ->
+  option_map shallow (get (stale_apply fs ds) q) = option_map shallow (get fs q).
+Proof.
+  intros Hw Hs Hq. rewrite (stale_apply_exact fs ds q Hw Hs).
+  destruct (covered fs ds q) eqn:C; [|reflexivity].
+  unfold covered in C. apply existsb_exists in C. destruct C as [d [Hin Hd]].
+  apply andb_true_iff in Hd. destruct Hd as [_ Hd]. rewrite (Hq d Hin) in Hd. discriminate.
+Qed.
+
+(* the order in which the list is processed does not matter (the code iterates a sorted std::set) *)
+Theorem stale_apply_order_irrelevant fs ds ds' q :
+  wf fs = true -> stale_scope fs ds -> (forall d, In d ds <-> In d ds') ->
+  option_map shallow (get (stale_apply fs ds) q) = option_map shallow (get (stale_apply fs ds') q).
+Proof.
+  intros Hw Hs Hiff.
+  assert (Hs' : stale_scope fs ds') by (intros d Hin; apply Hs; apply Hiff; exact Hin).
+  rewrite (stale_apply_exact fs ds q Hw Hs), (stale_apply_exact fs ds' q Hw Hs').
+  assert (Hc : covered fs ds q = covered fs ds' q).
+  { unfold covered. destruct (existsb _ ds) eqn:E1; destruct (existsb _ ds') eqn:E2; try reflexivity.
+    - apply existsb_exists in E1. destruct E1 as [d [Hin Hd]].
+      assert (E : existsb (fun d => removable fs d && comp_prefix (comps d) q) ds' = true)
+        by (apply existsb_exists; exists d; split; [apply Hiff; exact Hin | exact Hd]).
+      congruence.
+    - apply existsb_exists in E2. destruct E2 as [d [Hin Hd]].
+      assert (E : existsb (fun d => removable fs d && comp_prefix (comps d) q) ds = true)
+        by (apply existsb_exists; exists d; split; [apply Hiff; exact Hin | exact Hd]).
+      congruence. }
+  rewrite Hc. reflexivity.
+Qed.
+
+(* with roots given, nothing that lies lexically under none of the roots is touched *)
+Theorem fs_nothing_outside_roots fs prior expected roots q :
+  roots <> [] -> wf fs = true -> stale_scope fs (to_delete prior expected roots) ->
+  (forall r, In r roots -> comp_prefix (comps r) q = false) ->
+  option_map shallow (get (stale_apply fs (to_delete prior expected roots)) q) = option_map shallow (get fs q).
+Proof.
+  intros Hr Hw Hs Hq. apply stale_apply_untouched; [exact Hw | exact Hs|].
+  intros d Hin. destruct (nothing_outside_roots prior expected roots d Hr Hin) as [_ [r [Hrin Hrd]]].
+  destruct (comp_prefix (comps d) q) eqn:E; [|reflexivity].
+  specialize (Hq r Hrin). rewrite (comp_prefix_trans _ _ _ Hrd E) in Hq. discriminate.
+Qed.
+
+(* ---------- outside the scope: what a link on the way does (the real code does the same) ---------- *)
+
+Definition n_root : bytes := [114; 111; 111; 116].                                  (* "root" *)
+Definition n_lnk : bytes := [108; 110; 107].                                        (* "lnk" *)
+Definition n_else : bytes := [101; 108; 115; 101; 119; 104; 101; 114; 101].         (* "elsewhere" *)
+Definition n_x : bytes := [120].
+Definition n_a : bytes := [97].
+Definition n_l : bytes := [108].
+Definition s_abs (cs : list bytes) : bytes := join cs.                              (* "/c1/c2/..." *)
+
+(* /root/lnk -> /elsewhere ; /elsewhere/x *)
+Definition ex_through : node :=
+  Dir [(n_root, Dir [(n_lnk, Link (s_abs [n_else]))]); (n_else, Dir [(n_x, File 7)])].
+
+(* WITHOUT the premise "no link on the way" a stale path that lies lexically inside the root deletes outside it:
+   prior = ["/root/lnk/x"], roots = ["/root"] removes /elsewhere/x *)
+Theorem fs_link_on_the_way_refuted :
+  exists fs prior expected roots q x,
+    roots <> [] /\ wf fs = true /\
+    (forall d, In d (to_delete prior expected roots) -> comps d <> [] /\ plain_comps (comps d) = true) /\
+    (forall r, In r roots -> comp_prefix (comps r) q = false) /\
+    get fs q = Some x /\ get (stale_apply fs (to_delete prior expected roots)) q = None.
+Proof.
+  exists ex_through, [s_abs [n_root; n_lnk; n_x]], [], [s_abs [n_root]], [n_else; n_x], (File 7).
+  split; [discriminate|]. split; [vm_compute; reflexivity|]. split.
+  - intros d Hd. vm_compute in Hd. destruct Hd as [<-|[]]. split; [discriminate | vm_compute; reflexivity].
+  - split; [intros r [<-|[]]; vm_compute; reflexivity|]. split; vm_compute; reflexivity.
+Qed.
+
+(* /a/l -> "/" : the path /a/l/a names the directory /a through a link that lies inside /a *)
+Definition ex_cycle : node := Dir [(n_a, Dir [(n_l, Link [47])])].
+
+(* WITHOUT the premise an error result does not mean "nothing changed": removing /a/l/a removes the link /a/l,
+   after which the path no longer resolves; the call fails with ENOENT and /a stays behind, empty *)
+Theorem remove_error_unchanged_refuted :
+  exists fs s fs' e,
+    wf fs = true /\ comps s <> [] /\ plain_comps (comps s) = true /\
+    remove_path fs s = (fs', Some e) /\ fs' <> fs.
+Proof.
+  exists ex_cycle, (s_abs [n_a; n_l; n_a]), (Dir [(n_a, Dir [])]), ENOENT.
+  split; [vm_compute; reflexivity|]. split; [discriminate|]. split; [vm_compute; reflexivity|].
+  split; [vm_compute; reflexivity | discriminate].
+Qed.
+
+(* ---------- non-vacuity: a tree with the shapes the property is about ---------- *)
+
+Definition n_out : bytes := [111; 117; 116].
+Definition n_dang : bytes := [100; 97; 110; 103].
+Definition n_fl : bytes := [102; 108].
+Definition n_dir : bytes := [100; 105; 114].
+Definition n_inl : bytes := [105; 110; 108].
+Definition n_y : bytes := [121].
+Definition n_keep : bytes := [107; 101; 101; 112].
+
+(* /root/out -> /elsewhere (a directory outside), /root/dang -> /nowhere (dangling), /root/fl -> ../keep (a file),
+   /root/dir containing a link to the outside directory, /root/x; outside: /elsewhere/x and /keep *)
+Definition ex_tree : node :=
+  Dir [(n_root, Dir [(n_out, Link (s_abs [n_else])); (n_dang, Link (s_abs [[110; 111; 119; 104; 101; 114; 101]]));
+                     (n_fl, Link ([46; 46; 47] ++ n_keep));
+                     (n_dir, Dir [(n_inl, Link (s_abs [n_else])); (n_y, File 2)]); (n_x, File 1)]);
+       (n_else, Dir [(n_x, File 3)]);
+       (n_keep, File 5)].
+
+Definition ex_stale : list bytes :=
+  [s_abs [n_root; n_out]; s_abs [n_root; n_dang]; s_abs [n_root; n_fl]; s_abs [n_root; n_dir]].
+
+Example ex_scope : wf ex_tree = true /\ stale_scope ex_tree ex_stale.
+Proof.
+  split; [vm_compute; reflexivity|]. intros d Hd.
+  destruct Hd as [<-|[<-|[<-|[<-|[]]]]]; (split; [discriminate | split; vm_compute; reflexivity]).
+Qed.
+
+(* the link that is the stale path itself is removed, the directory it points to keeps its content *)
+Example ex_remove_link_to_outside :
+  exists fs', remove_path ex_tree (s_abs [n_root; n_out]) = (fs', None) /\
+              get fs' [n_root; n_out] = None /\ get fs' [n_else; n_x] = Some (File 3).
+Proof. eexists. split; [vm_compute; reflexivity | split; vm_compute; reflexivity]. Qed.
+
+(* spelled with a trailing separator the link is refused (unlink: ENOTDIR) and nothing changes *)
+Example ex_remove_link_trailing_sep :
+  remove_path ex_tree (s_abs [n_root; n_out] ++ [47]) = (ex_tree, Some ENOTDIR).
+Proof. vm_compute. reflexivity. Qed.
+
+(* the whole list: the three links and the directory disappear; the link inside the directory was not followed *)
+Example ex_stale_result :
+  stale_apply ex_tree ex_stale =
+  Dir [(n_root, Dir [(n_x, File 1)]); (n_else, Dir [(n_x, File 3)]); (n_keep, File 5)].
+Proof. vm_compute. reflexivity. Qed.
+
+(* the hypotheses of fs_nothing_outside_roots are met with roots = ["/root"], and /elsewhere/x is outside *)
+Example ex_roots_instance :
+  to_delete ex_stale [] [s_abs [n_root]] = ex_stale /\
+  (forall r, In r [s_abs [n_root]] -> comp_prefix (comps r) [n_else; n_x] = false) /\
+  covered ex_tree ex_stale [n_root; n_dir; n_inl] = true /\ covered ex_tree ex_stale [n_root; n_x] = false.
+Proof.
+  split; [vm_compute; reflexivity|]. split; [intros r [<-|[]]; vm_compute; reflexivity|].
+  split; vm_compute; reflexivity.
+Qed.
